@@ -255,12 +255,21 @@ def work_sevenbit(ctx, idx, wr):
         return wr
     wr.scenarios = 1
     # an 8-bit pattern under -7 must be refused
-    s8 = scenario.relabel_scenario(sc, {sc.alphabet[0]: 0xe9})
-    s8.bits = 7
-    bx = ctx.build(s8)
-    wr.evaluations += 1
-    wr.stats['sevenbit-refusal-checks'] += 1
-    if bx.ok or bx.stage != 'flex':
+    # (relabel a byte that really occurs in a pattern: the alphabet also
+    # holds bytes that only the input uses)
+    s8 = None
+    for a in sc.alphabet:
+        t = scenario.relabel_scenario(sc, {a: 0xe9})
+        if any('\\xe9' in t.rule_line(i) for i in range(len(t.rules))):
+            s8 = t
+            break
+    bx = None
+    if s8 is not None:
+        s8.bits = 7
+        bx = ctx.build(s8)
+        wr.evaluations += 1
+        wr.stats['sevenbit-refusal-checks'] += 1
+    if bx is not None and (bx.ok or bx.stage != 'flex'):
         wr.findings.append(Finding('sevenbit-not-refused', 'flex -7 accepted (exit 0) a pattern that needs the 8-bit character \\xe9 (stage=%s)' % bx.stage,
                                    Case(ID, {'main': s8}, Plan(), meta={'kind': 'refusal'}), -1, 'scn %d' % idx))
     plans = []
@@ -300,7 +309,10 @@ def work_sevenbit(ctx, idx, wr):
 def evaluate(ctx, case):
     kind = case.meta.get('kind')
     if kind == 'refusal':
-        bx = ctx.build(case.scs['main'])
+        s8 = case.scs['main']
+        if not any('\\xe9' in s8.rule_line(i) for i in range(len(s8.rules))):
+            return [], {}
+        bx = ctx.build(s8)
         if bx.ok or bx.stage != 'flex':
             return [model.Viol('sevenbit-not-refused', -1, 'flex -7 accepted a pattern that needs an 8-bit character')], {}
         return [], {}
